@@ -103,6 +103,16 @@ func runF(op string, in M) (M, M) {
 		data := vBytes(in["data"])
 		out := mineChild(data, vFloatOf(in["target"]), vIntOf(in["workers"]))
 		return out, digestFacts(data)
+	case "pow.required": // white box: the number of zeros Mine will look for
+		ln := vIntOf(in["len"])
+		target := vFloatOf(in["target"])
+		var z uint
+		p := vCatch(func() { z = requiredTrailingZeros(ln, target) })
+		if z > 243 {
+			return M{"z": -1, "s_z": vFloat(0), "panic": p}, M{}
+		}
+		// the value Score returns for a hash with exactly z trailing zeros (same expression as Score)
+		return M{"z": int(z), "s_z": vFloat(math.Pow(consts.TrinaryRadix, float64(z)) / float64(ln)), "panic": p}, M{}
 	case "pow.check":
 		tz := vIntList(in["tz"])
 		n := vIntOf(in["n"])
@@ -151,6 +161,27 @@ func TestVerifDriver(t *testing.T) {
 			emit(v.Op, v.In)
 		}
 		return
+	}
+	// decision boundary of the required number of zeros: every message length x power of three x a few ulps around 3^k/len
+	if maxK := vEnvInt("VERIF_MAXK", 5); true {
+		for ln := 8; ln <= 8+vEnvInt("VERIF_LENS", 130); ln++ {
+			for k := 0; k <= maxK+2; k++ {
+				t := math.Pow(3, float64(k)) / float64(ln)
+				for _, d := range []int{-1, 0, 1, 2} {
+					x := t
+					for i := 0; i < d; i++ {
+						x = math.Nextafter(x, math.Inf(1))
+					}
+					if d < 0 {
+						x = math.Nextafter(x, 0)
+					}
+					emit("pow.required", M{"len": ln, "target": vFloat(x)})
+				}
+			}
+		}
+		for _, x := range []float64{1e-300, math.SmallestNonzeroFloat64, 1e-9, 0.01, 0.04} {
+			emit("pow.required", M{"len": 8, "target": vFloat(x)})
+		}
 	}
 	r := vRand(11)
 	n := vEnvInt("VERIF_N", 24)
